@@ -113,6 +113,9 @@ func (a *AES128CBC) SerializeTo(b gopacket.SerializeBuffer, _ gopacket.Serialize
 	if _, err := rand.Read(iv); err != nil {
 		return err
 	}
+	// prepending may have moved the buffer's contents to new memory, in which
+	// case the slice taken above refers to the old copy
+	toEncrypt = b.Bytes()[a.cipher.BlockSize():]
 
 	// encrypt everything after IV
 	mode := cipher.NewCBCEncrypter(a.cipher, iv)
